@@ -73,7 +73,11 @@ def _build_generated(c):
         from collections import OrderedDict
 
         new = OrderedDict()
-        new["<start>"] = ("seq", (("nt", "<cnt>"), ("rep", ("nt", "<body0>"), 0, None, "int(<cnt>)")))
+        # the repeated body is a single symbol or a multi-child group (an insertion / deletion at a wrong
+        # child index is only visible with the latter)
+        sep = ("lit", b";") if model.binary else ("lit", ";")
+        rep_body = rng.choice([("nt", "<body0>"), ("seq", (("nt", "<body0>"), sep)), ("seq", (sep, ("nt", "<body0>"), sep))])
+        new["<start>"] = ("seq", (("nt", "<cnt>"), ("rep", rep_body, 0, None, "int(<cnt>)"), sep))
         new["<cnt>"] = ("alt", tuple(("lit", str(d) if model.binary is False else str(d)) for d in (0, 1, 2, 3, 5)))
         for n, e in rules.items():
             new["<body0>" if n == "<start>" else n] = _rename(e, "<start>", "<body0>")
